@@ -21,7 +21,8 @@ func init() {
 // Relational, no reference semantics: the schema S with a catching focus node is run next to
 // its twin S' in which the focus node is the same node without Catch, on the same input.
 
-func C05_Jobs() []string {
+func C05_Jobs() []string { return append(c05_jobs0(), "json-records") }
+func c05_jobs0() []string {
 	out := []string{"multi-issue/parse", "multi-issue/validate", "ptr-elem/parse", "kinds/parse", "kinds/validate", "redirected/parse", "redirected/validate", "negated/parse", "negated/validate"}
 	for _, j := range shapeJobs() {
 		_, tm, variant, d := split3(j)
@@ -466,6 +467,10 @@ func c05OtherKinds(sh *shape) {
 }
 
 func C05_Run(job string) {
+	if job == "json-records" {
+		jrCheck("C05")
+		return
+	}
 	if a, b, _, _ := split3(job); a == "multi-issue" || a == "ptr-elem" || a == "kinds" || a == "redirected" || a == "negated" {
 		c05Extra(a, b)
 		return
@@ -600,7 +605,8 @@ func C05_Run(job string) {
 // Self-composition: the same schema runs twice on the same input inside one path; the engine
 // picks the field visit order of each run independently (all ordered pairs of permutations).
 
-func C09_Jobs() []string {
+func C09_Jobs() []string { return append(c09_jobs0(), "json-records") }
+func c09_jobs0() []string {
 	var out []string
 	for _, j := range shapeJobs() {
 		_, t, _, d := split3(j)
@@ -742,6 +748,10 @@ func c09EmptyTag(mode string) {
 }
 
 func C09_Run(job string) {
+	if job == "json-records" {
+		jrCheck("C09")
+		return
+	}
 	if a, b, _, _ := split3(job); a == "options-order" {
 		c09Options(b)
 		return
@@ -890,7 +900,7 @@ func C09_Run(job string) {
 // C13 — Parse and Validate agree on fully populated values.
 
 func C13_Jobs() []string {
-	out := []string{"post/prim", "post/struct", "post/slice", "post/catch", "post/slice-tests", "post/custom-writes", "post/empty-tag", "post/embedded-dest", "post/long-slice"}
+	out := []string{"post/prim", "post/struct", "post/slice", "post/catch", "post/slice-tests", "post/custom-writes", "post/empty-tag", "post/embedded-dest", "post/long-slice", "post/odd-bytes"}
 	for _, j := range shapeJobs() {
 		m, _, _, _ := split3(j)
 		if m == "validate" {
@@ -968,6 +978,38 @@ func sameFullMaps(a, b z.ZogIssueMap) bool {
 // PostTransforms behave alike in both modes: same order, same stop at the first error, same
 // resulting value
 func c13Post(kind string) {
+	if kind == "odd-bytes" {
+		// a string that is not made of white space only is a populated leaf, whatever its bytes are
+		// (control characters, invalid UTF-8): ALL byte strings of <=2 bytes (3 in thorough), as a
+		// top-level value, a struct field, a list item and behind a pointer
+		v.MapOrderChoice(false)
+		s := v.String("s", wsMax())
+		n := 0
+		for n < len(s) {
+			n++
+		}
+		v.Assume(n > 0 && !refBlank(s, n))
+		type T struct {
+			A string
+			L []string
+			P *string
+		}
+		sc := z.Struct(z.Schema{"a": z.String().Required().Min(1), "l": z.Slice(z.String().Required()).Min(1), "p": z.Ptr(z.String().Required()).NotNil()})
+		var d1, d2 T
+		s2 := s
+		d1 = T{s, []string{s}, &s2}
+		e1 := sc.Validate(&d1)
+		e2 := sc.Parse(map[string]any{"a": s, "l": []any{s}, "p": s}, &d2)
+		var t1, t2 string
+		l1 := z.String().Required().Validate(&s2)
+		t1 = s2
+		l2 := z.String().Required().Parse(s, &t2)
+		v.Cover("agree-clean")
+		v.Assert(sameFullMaps(e1, e2) && fullCodes(l1) == fullCodes(l2), "C13:issues-differ-between-modes")
+		v.Assert(e1 == nil && len(l1) == 0, "C13:issues-differ-between-modes")
+		v.Assert(d2.A == s && len(d2.L) == 1 && d2.L[0] == s && d2.P != nil && *d2.P == s && t1 == t2, "C13:values-differ-between-modes")
+		return
+	}
 	x := v.Int("x")
 	v.Assume(v.And(x != 0, v.And(x > -1000000, x < 1000000)))
 	failAt := v.Choice("fail-at", 4)          // which of the three transforms returns an error (3 = none)
